@@ -13,7 +13,7 @@ def run(tier):
     base = dict(unwind=120, timeout_s=600 if tier == "quick" else 3000, summarise=SUM, max_witnesses=1, witness_every=1000,
                 panic_is_violation=True)
     for sys in (NPM, MAVEN, PYPI):
-        vts = [0, 1, 5, 6, 7] if sys == NPM else [0, 1]
+        vts = [0, 1, 5, 6, 7] if sys == NPM else ([0, 1, 4] if sys == MAVEN else [0, 1, 2])  # 4, 2: other spellings of a version (1.0.0-0, 1.0)
         if tier != "quick":
             vts = [0, 1, 2, 3, 4, 5, 6, 7] if sys == NPM else [0, 1, 2, 4]
         ks = [2, 3] if tier == "quick" else [2, 3, 4]
